@@ -8,6 +8,7 @@
    Time runs forward as in bdsk.py (origin 0, present T); tau is the time left to the END of an
    epoch, so d/dtau is the derivative backwards in time, the direction of the master equations. *)
 From Coq Require Import QArith Reals Qreals List String.
+Set Warnings "-ambiguous-paths".
 From Coquelicot Require Import Coquelicot.
 From TT Require Import Num NumR NumI ParamI Tree M_bdsk P_bdsk P_bdsk_param M_options G_options P_options.
 Import ListNotations.
